@@ -65,7 +65,10 @@ def gen_multiset(rng, n):
     else:
         phys = rng.sample(PHYS_POOL, min(k, len(PHYS_POOL)))
     ids = rng.sample(range(1, 1000), n)
-    hs = [{"id": ids[i], "phys": list(rng.choice(phys)), "caps": gen_caps(rng)} for i in range(n)]
+    # event-node names and hardware ids come from small pools (interfaces of a composite device share the id; nodes are re-used after
+    # a re-plug): over a run one process sees the same (node, hardware id) with different capabilities - the result may not depend on it
+    evs = rng.sample(range(1, 13), n) if n <= 12 and rng.random() < 0.8 else [0] * n
+    hs = [{"id": ids[i], "phys": list(rng.choice(phys)), "caps": gen_caps(rng), "ev": evs[i], "hw": rng.choice([0, 1, 1, 2, 3])} for i in range(n)]
     if n >= 2 and rng.random() < 0.5:    # make sure something is shared
         hs[1]["phys"] = list(hs[0]["phys"])
     return hs
@@ -441,7 +444,7 @@ def fill_coverage(run_, fams, sweep, st):
     run_.assumptions += [
         "a handler is projected to (identity, DeviceInfo.Phys bytes, DeviceInfo.CapableTypes); Device.ID/Name/Uniq/AbsInfos (taken from the "
         "first handler or from opened event nodes) are outside the view",
-        "handlers are synthetic DeviceInfo values with an empty event name: evdev.Open fails and they are grouped without touching /dev/input",
+        "handlers are synthetic DeviceInfo values whose event name is empty or names a node that does not exist (event9001..): evdev.Open fails and they are grouped without touching /dev/input; event names and hardware ids are drawn from small pools so that one process sees the same (node, id) with different capabilities",
         "Go map iteration order is exercised only as far as the runtime randomises it over the repeated calls; the view is order-insensitive",
     ]
 
